@@ -1325,6 +1325,11 @@ func TestVerifC14ConcDirected(t *testing.T) {
 		{kind: "metapatch", path: "p0", max: "5", casreq: "-", dva: "-"},
 		{kind: "metapatch", path: "p0", max: "-", casreq: "-", dva: "-", cm: "x=m1", mcas: "0"},
 		{kind: "metawrite", path: "p0", max: "-", casreq: "-", dva: "-", cm: "y=m2"},
+		// a READ parked after each of its storage operations (key metadata, then the version entry) while a request that
+		// removes or replaces what it is about to read completes: the answer must still be one a sequential execution gives
+		{kind: "read", path: "p0", ver: 0},
+		{kind: "read", path: "p0", ver: 1},
+		{kind: "metaread", path: "p0"},
 	}
 	runners := []c14op{
 		{kind: "write", path: "p0", cas: "2", data: "a=w9,t=t0"},
@@ -1336,35 +1341,48 @@ func TestVerifC14ConcDirected(t *testing.T) {
 	}
 	nRun := 0
 	for _, tx := range []bool{true, false} {
-		for _, h := range holders {
-			for _, r := range runners {
-				// both roles: the metadata handler parked while the other request runs, and the other request parked
-				// (holding the key lock from its first storage operation on) while the metadata handler runs as far as
-				// it can — a handler that reads the key metadata before it takes the lock gets its stale copy here
-				for _, first := range []int{0, 1} {
-					total := -1
-					for j := 0; total < 0 || j <= total; j++ {
-						e := newC14Env(t, tx)
-						out.Reset()
-						out.Op("ok", "mode", c14mode(tx))
-						for _, o := range []c14op{
-							{kind: "write", path: "p0", cas: "-", data: "a=w1"},
-							{kind: "write", path: "p0", cas: "-", data: "a=w2"},
-						} {
-							out.Op(e.exec(0, o), o.fields()...)
+		for hi, h := range holders {
+			// read holders also run with max_versions = 1 set after the two set-up writes: the runner's write then prunes
+			// the versions the reader has just been told about
+			narrowN := 1
+			if h.kind == "read" {
+				narrowN = 2
+			}
+			_ = hi
+			for narrow := 0; narrow < narrowN; narrow++ {
+				for _, r := range runners {
+					// both roles: the metadata handler parked while the other request runs, and the other request parked
+					// (holding the key lock from its first storage operation on) while the metadata handler runs as far as
+					// it can — a handler that reads the key metadata before it takes the lock gets its stale copy here
+					for _, first := range []int{0, 1} {
+						total := -1
+						for j := 0; total < 0 || j <= total; j++ {
+							e := newC14Env(t, tx)
+							out.Reset()
+							out.Op("ok", "mode", c14mode(tx))
+							setup := []c14op{
+								{kind: "write", path: "p0", cas: "-", data: "a=w1"},
+								{kind: "write", path: "p0", cas: "-", data: "a=w2"},
+							}
+							if narrow == 1 {
+								setup = append(setup, c14op{kind: "metawrite", path: "p0", max: "1", casreq: "-", dva: "-"})
+							}
+							for _, o := range setup {
+								out.Op(e.exec(0, o), o.fields()...)
+							}
+							ops := []c14op{h, r}
+							res, prec, sched, performed, err := e.runSchedule(ops, c14directed(first, 1-first, j))
+							if err != nil {
+								t.Fatalf("directed %s/%s first=%d j=%d: %v", h.kind, r.kind, first, j, err)
+							}
+							total = performed[first]
+							if nRun < 2 || (j == 1 && r.kind == "write" && r.cas == "2" && h.max == "5") {
+								t.Logf("directed (%s) holder=%s runner=%s first=%d j=%d: %s => %v", c14mode(tx), h.kind, r.kind, first, j, strings.Join(sched, " "), res)
+							}
+							nRun++
+							c14concEmit(out, e, ops, res, prec, sched, 2, 2, r.kind == "patch" || (r.kind == "write" && r.cas == "-"))
+							e.close()
 						}
-						ops := []c14op{h, r}
-						res, prec, sched, performed, err := e.runSchedule(ops, c14directed(first, 1-first, j))
-						if err != nil {
-							t.Fatalf("directed %s/%s first=%d j=%d: %v", h.kind, r.kind, first, j, err)
-						}
-						total = performed[first]
-						if nRun < 2 || (j == 1 && r.kind == "write" && r.cas == "2" && h.max == "5") {
-							t.Logf("directed (%s) holder=%s runner=%s first=%d j=%d: %s => %v", c14mode(tx), h.kind, r.kind, first, j, strings.Join(sched, " "), res)
-						}
-						nRun++
-						c14concEmit(out, e, ops, res, prec, sched, 2, 2, r.kind == "patch" || (r.kind == "write" && r.cas == "-"))
-						e.close()
 					}
 				}
 			}
